@@ -149,3 +149,14 @@ func Harness_C01_d_nested() {
 	verifAssert(d_topvar(a) == a+42, "d_topvar: top-level let variable")
 	verifCover("end")
 }
+
+func Harness_C01_d_effect_order() {
+	a, b, c := verifInt("a"), verifInt("b"), verifInt("c")
+	og := observe(func() { d_effect_order(a, b, c) })
+	got := d_effect_order(a, b, c)
+	trace, emitted = nil, nil
+	verifAssert(got.E0 == b-a && got.E1 == frt.NewTuple3(c, a+1, b+1) && got.E2 == 2+8, "d_effect_order: values")
+	want := []int{a, b, c, a + 1, b + 1, 100, 200, 7, 8, 9}
+	verifAssert(sameInts(og.trace, want), "d_effect_order: initialisers of record fields run in written order, tuple and slice elements left to right")
+	verifCover("end")
+}
